@@ -57,3 +57,65 @@ macro_rules! gen_dw { ($($name:ident: $c:expr, $p:expr, $f:expr, $a:expr;)*) => 
     fn $name() { distance_wrapper::<$c, $p, $f, $a>(); }
 )* }; }
 include!("wrap_gen.inc");
+
+/// C08.wrap: `ska delete` = delete_samples followed by exactly one save of the modified array
+#[kani::proof]
+#[kani::unwind(8)]
+fn delete_wrapper_2x3() {
+    const C: usize = 3;
+    let mut rows = [[0u8; C]; 2];
+    let mut i = 0;
+    while i < 2 { let mut j = 0; while j < C { rows[i][j] = any_stored_sym(); j += 1; } kani::assume(present::<C>(&rows[i]) >= 1); i += 1; }
+    let mut a = mk_array::<2, C>(&[10u64, 20u64], &rows);
+    stub_io(true);
+    delete(&mut a, &["b"], "out.skf");
+    assert!(save_calls() == 1, "saved exactly once, after the deletion");
+    assert!(nnames_of(&a) == 2 && name_of(&a, 0).as_bytes() == b"a" && name_of(&a, 1).as_bytes() == b"c" && ncols_of(&a) == 2, "the array that is saved holds the remaining samples");
+    let mut out = 0;
+    let mut i = 0;
+    while i < 2 {
+        if rows[i][0] != b'-' || rows[i][2] != b'-' {
+            let r = row_of::<2>(&a, out);
+            assert!(r[0] == rows[i][0] && r[1] == rows[i][2] && kmer_at(&a, out) == [10u64, 20u64][i], "remaining bases and k-mers");
+            out += 1;
+        }
+        i += 1;
+    }
+    assert!(nrows_of(&a) == out && nkmers_of(&a) == out, "k-mers only in the deleted sample are gone");
+    kani::cover!(out == 1, "a k-mer found only in the deleted sample");
+    std::mem::forget(a);
+}
+
+/// C13.wrap: `ska weed` without a weed file, --min-freq 0, no site filter and no masks applies no filter
+/// at all and saves the table unchanged (the frequency threshold is floor(samples x min_freq))
+fn weed_wrapper<const FREQ10: usize>() {
+    const C: usize = 3;
+    let mut rows = [[0u8; C]; 2];
+    let mut i = 0;
+    while i < 2 { let mut j = 0; while j < C { rows[i][j] = any_stored_sym(); j += 1; } kani::assume(present::<C>(&rows[i]) >= 1); i += 1; }
+    let mut a = mk_array::<2, C>(&[10u64, 20u64], &rows);
+    stub_io(true);
+    let min_freq = FREQ10 as f64 / 10.0;
+    weed(&mut a, &None, false, min_freq, false, &FilterType::NoFilter, false, false, "out.skf");
+    assert!(save_calls() == 1, "saved exactly once");
+    let thr = (C * FREQ10) / 10; // floor(samples x min_freq)
+    let mut out = 0;
+    let mut i = 0;
+    while i < 2 {
+        if present::<C>(&rows[i]) >= thr {
+            assert!(out < nrows_of(&a) && row_of::<C>(&a, out) == rows[i] && kmer_at(&a, out) == [10u64, 20u64][i] && count_at(&a, out) == present::<C>(&rows[i]), "k-mer at or above the threshold kept with all its bases");
+            out += 1;
+        }
+        i += 1;
+    }
+    assert!(nrows_of(&a) == out && nkmers_of(&a) == out && counts_len(&a) == out, "nothing else is kept");
+    if FREQ10 == 0 { assert!(out == 2, "--min-freq 0 applies no frequency filter"); kani::cover!(true, "any: saved unchanged"); }
+    else { kani::cover!(out == 1, "any: the default --min-freq 0.9 additionally drops a k-mer missing from a sample"); }
+    std::mem::forget(a);
+}
+#[kani::proof]
+#[kani::unwind(8)]
+fn weed_wrapper_minfreq0() { weed_wrapper::<0>(); }
+#[kani::proof]
+#[kani::unwind(8)]
+fn weed_wrapper_minfreq09() { weed_wrapper::<9>(); }
